@@ -203,7 +203,7 @@ int main(int argc, char** argv)
         lat.axis("type", types.size(), jarr_str(types));
         lat.describe(r, "algo.");
         r.axis("algo.per_case", jstr("indexed() with all index lists of length 1..3 over the first axis (owning result, "
-                                     "mapped result, converting result); 19 conversions between owning/map/cmap storages; "
+                                     "mapped result, converting result); 18 conversions between owning/map/cmap storages; "
                                      "integral into int64/double and into the scalar type itself"));
         for_each_case(lat, r, "algo", [&](const uint64_t index, const std::vector<uint64_t>& d) {
             announce("algo", index);
